@@ -106,14 +106,15 @@ Definition impl_pct_amount (p : amount) : impl_result :=
   bind (impl_mul p (mkA 100 0)) (fun x => impl_rescale x (exp p - 2)).
 
 (* ---------- the property's magnitude domain, as boolean guards ----------
-   operands and the exact intermediate below 2^52 in magnitude, divisors non-zero, powers of ten
-   that fit an int64 (10^18 is the largest) *)
+   operands and the exact intermediate below 2^52 in magnitude, divisors non-zero, and the power
+   of ten the float path divides by at most 10^63 (intPow(10, e) overflows int64 from e = 19 on,
+   harmlessly up to e = 63; it is 0 from e = 64 on and the quotient is Inf or NaN) *)
 Definition in_domain_mul (a b : amount) : bool :=
-  small52 (val a) && small52 (val b) && small52 (val a * val b) && Nat.leb (exp b) 18.
+  small52 (val a) && small52 (val b) && small52 (val a * val b) && Nat.leb (exp b) 63.
 Definition in_domain_div (a b : amount) : bool :=
   negb (val b =? 0) && small52 (val b) && small52 (val a * pow10 (exp b)).
 Definition in_domain_rescale (a : amount) (e : nat) : bool :=
-  if Nat.ltb e (exp a) then small52 (val a) && Nat.leb (exp a - e) 18
+  if Nat.ltb e (exp a) then small52 (val a) && Nat.leb (exp a - e) 63
   else small52 (val a * pow10 (e - exp a)).
 Definition in_domain_add (a b : amount) : bool := small52 (val a) && in_domain_rescale b (exp a).
 Definition in_domain_sub (a b : amount) : bool := small52 (val a) && in_domain_rescale b (exp a).
